@@ -332,6 +332,75 @@ def run_write(case):
     return {"results": res, "file": base64.b64encode(out).decode()}
 
 
+class GateFile:
+    """underlying file of a shared writer: the chosen write() call (thread, k-th call of that thread) is pre-empted --
+    it blocks until released and its bytes reach the file only then; all other calls go through at once"""
+
+    def __init__(self, target):
+        import threading
+        self.target = target
+        self.mutex = threading.Lock()
+        self.counts = {}
+        self.data = []
+        self.entered = threading.Event()
+        self.release = threading.Event()
+
+    def write(self, b):
+        import threading
+        name = threading.current_thread().name
+        with self.mutex:
+            k = self.counts.get(name, 0)
+            self.counts[name] = k + 1
+        if [name, k] == self.target:
+            self.entered.set()
+            self.release.wait(60)
+        with self.mutex:
+            self.data.append(bytes(b))
+        return len(b)
+
+    def close(self):
+        pass
+
+
+def run_cwrite(c):
+    """2-3 threads write their own chunks through ONE BinaryZlibFile/BinaryGzipFile; one underlying write is pre-empted.
+    With write() holding the file object's lock across compress + fp.write the other threads wait, so the outcome
+    does not depend on timing; the grace period only decides how surely a broken locking discipline is seen."""
+    import threading
+    chunks = sh.cw_chunks(c)
+    gate = GateFile(["w%d" % c["gate"][0], c["gate"][1]])
+    f = CLS[c["fmt"]](gate, "wb", compresslevel=c["level"])
+    rets = {}
+    done = [threading.Event() for _ in chunks]
+
+    def worker(t):
+        try:
+            rets[t] = [f.write(ch) for ch in chunks[t]]
+        except BaseException as e:  # noqa
+            rets[t] = "raised " + repr(e)
+        finally:
+            done[t].set()
+    ths = [threading.Thread(target=worker, args=(t,), name="w%d" % t, daemon=True) for t in range(len(chunks))]
+    g = c["gate"][0]
+    ths[g].start()
+    if not gate.entered.wait(20):
+        gate.release.set()
+        return {"harness_error": "the gated write was never reached"}
+    for t, th in enumerate(ths):
+        if t != g:
+            th.start()
+    others_done = all(done[t].wait(c.get("grace", 0.4)) for t in range(len(chunks)) if t != g)
+    gate.release.set()
+    for th in ths:
+        th.join(30)
+    if any(th.is_alive() for th in ths):
+        return {"harness_error": "a writer thread did not finish"}
+    tell = f.tell()
+    f.close()
+    return {"file": base64.b64encode(b"".join(gate.data)).decode(), "rets": [rets.get(t) for t in range(len(chunks))],
+            "tell": tell, "others_finished_while_gated": others_done}
+
+
 def main():
     for line in sys.stdin:
         line = line.strip()
@@ -342,7 +411,7 @@ def main():
             if TIMER_HANGS[0] >= MAX_TIMER_HANGS:
                 r = {"skipped": "earlier cases of this process hung"}
             else:
-                r = run_read(c) if c["kind"] == "read" else run_write(c)
+                r = run_read(c) if c["kind"] == "read" else (run_cwrite(c) if c["kind"] == "cwrite" else run_write(c))
         except BaseException as e:  # harness-level failure is reported, not hidden
             r = {"harness_error": repr(e)}
         sys.stdout.write(json.dumps(r) + "\n")
